@@ -31,6 +31,7 @@ func BuildMapCodec(p CodecBuilder, registry CodecRegistry, typ reflect.Type, tag
 	if err != nil {
 		return nil, fmt.Errorf("failed to find codec for map key %s. %w", typ.Key().Name(), err)
 	}
+	verifYield("map.build")
 	valueCodec, err := p.CodecForTypeRegistry(registry, typ.Elem(), "")
 	if err != nil {
 		return nil, fmt.Errorf("failed to find codec for map value %s. %w", typ.Elem().Name(), err)
@@ -164,9 +165,12 @@ func (c *MapCodec) Read(data []byte, ptr unsafe.Pointer, wt plenccore.WireType) 
 	// re-use the space on each iteration as the data is copied into the map
 	// We also save some memory & time if we cache them in some pools
 	k := c.kPool.Get().(unsafe.Pointer)
+	k = verifPoolGet(&c.kPool, c.keyCodec.New, k)
 	defer c.kPool.Put(k)
+	defer verifPoolPut(&c.kPool, k)
 	offset := int(n)
 	for count > 0 {
+		verifYield("map.entry")
 		// Each entry starts with a length
 		entryLength, n := plenccore.ReadVarUint(data[offset:])
 		if n <= 0 {
@@ -203,6 +207,7 @@ func (c *MapCodec) readMapEntry(mp, k unsafe.Pointer, data []byte) (int, error) 
 		k = c.kZero
 	}
 
+	verifYield("map.key")
 	// Assign/find a place in the map for this key. Val is a pointer to where
 	// the value should be. We're going to unmarshal into this directly
 	val := mapassign(unpackEFace(c.rtype).data, mp, k)
@@ -215,6 +220,7 @@ func (c *MapCodec) readMapEntry(mp, k unsafe.Pointer, data []byte) (int, error) 
 			}
 		}
 
+		verifYield("map.value")
 		n, err := c.valueCodec.Read(data[offset:fieldEnd], val, wt)
 		if err != nil {
 			return 0, fmt.Errorf("failed reading value field of %s. %w", c.rtype.Name(), err)
@@ -370,7 +376,9 @@ func (c ProtoMapCodec) Read(data []byte, ptr unsafe.Pointer, wt plenccore.WireTy
 	// re-use the space on each iteration as the data is copied into the map
 	// We also save some memory & time if we cache them in some pools
 	k := c.kPool.Get().(unsafe.Pointer)
+	k = verifPoolGet(&c.kPool, c.keyCodec.New, k)
 	defer c.kPool.Put(k)
+	defer verifPoolPut(&c.kPool, k)
 	return c.readMapEntry(mp, k, data)
 }
 
